@@ -31,6 +31,7 @@ type Program struct {
 	globalInits  map[*types.Var]ast.Expr
 	privAlloc    map[types.Object]bool
 	normElem     bool
+	scopeRoots   map[types.Object]bool // C06: the maps that are used as the scope
 	binOpDone    bool
 	binOpVals    map[string]string
 	binOpPos     token.Pos
